@@ -58,7 +58,16 @@ func VH_RT_xz() {
 	n := vConcretize(int(vNondetU8("n")) % (vRTLen() + 1))
 	vAssume(vShards() <= 8 || n%2 == vShardIdx()/8)
 	data := vBits("bit", n, 0, 'a')
+	// tiny inputs are always stored as raw LZMA2 chunks; a redundant tail makes the
+	// writer emit compressed chunks as well
 	split := vConcretize(int(vNondetU8("split")) % (n + 1))
+	if n <= 3 && vConcretize(int(vNondetU8("tail"))%2) == 1 {
+		data = append(data, "abababababababababababab"...)
+		if split == n && vConcretize(int(vNondetU8("splitInTail"))%2) == 1 {
+			split += 7
+		}
+		n = len(data)
+	}
 	var sink bytes.Buffer
 	w, err := cfg.NewWriter(&sink)
 	vAssert(err == nil, "valid configuration accepted")
